@@ -19,7 +19,7 @@ PROFILE = {'name': 'c02',
 
 def plan(tier):
     return {'cases_per_shard': 450 if tier == 'quick' else 9000,
-            'time_cap_s': 45 if tier == 'quick' else 560}
+            'time_cap_s': 90 if tier == 'quick' else 560}
 
 
 def run_case(cs, ctx):
